@@ -175,6 +175,8 @@ def gen_c04(tier, seed, known, n=None):
         ["+", "-", "()", "[]", "new[]", "x", "y", "value", "T", "operator", "", "a\0b", "\xff\xfe"]
     for i in range(40):
         spellings.append("".join(rnd.choice("abcxyz_") for _ in range(rnd.randrange(1, 6))))
+    # long spellings (string literals, generated names): 2^16 and more characters, pairs that differ only near the end
+    spellings += ["x" * 65535, "x" * 65536, "x" * 65537, "y" * 70000 + "a", "y" * 70000 + "b", "q" * 131072 + "tail", "q" * 131072]
     n = n or (2500 if tier == "quick" else 6000)
     issued = []
     xlists = ["@l%d" % i for i in range(8)]
